@@ -268,6 +268,28 @@ func c02JudgeRunner(runner risc.InstructionRunner, c c02Case) (err error) {
 		return fmt.Errorf("%q: declared write set %v, the instruction writes %v", text, names(gotWrites), names(wantWrites))
 	}
 
+	// declared classification: the type predicates are what the control units
+	// consult instead of the sets (routing of loads and stores, holding back ret
+	// behind a conditional branch, branch-target-buffer handling of jumps)
+	it := runner.InstructionType()
+	isJump := sh == ref.ShapeJ || sh == ref.ShapeJal || sh == ref.ShapeJalr
+	isCond := sh == ref.ShapeBr1 || sh == ref.ShapeBr2
+	if it.IsMemoryRead() != in.IsLoad() {
+		return fmt.Errorf("%q: type %v declares IsMemoryRead=%v, the instruction loads: %v", text, it, it.IsMemoryRead(), in.IsLoad())
+	}
+	if it.IsMemoryWrite() != in.IsStore() {
+		return fmt.Errorf("%q: type %v declares IsMemoryWrite=%v, the instruction stores: %v", text, it, it.IsMemoryWrite(), in.IsStore())
+	}
+	if it.IsConditionalBranch() != isCond {
+		return fmt.Errorf("%q: type %v declares IsConditionalBranch=%v, want %v", text, it, it.IsConditionalBranch(), isCond)
+	}
+	if it.IsUnconditionalBranch() != isJump {
+		return fmt.Errorf("%q: type %v declares IsUnconditionalBranch=%v, want %v", text, it, it.IsUnconditionalBranch(), isJump)
+	}
+	if it.IsBranch() != (isJump || isCond) {
+		return fmt.Errorf("%q: type %v declares IsBranch=%v, want %v", text, it, it.IsBranch(), isJump || isCond)
+	}
+
 	// memory addresses
 	size := ref.AccessSize(in.Op)
 	ea := a + in.Imm
